@@ -299,6 +299,9 @@ structure Func where
   exit : List Nat := []
   nres : Nat
   body : List Instr
+  /-- `before` probes on the function's final `end`: they fire when the body falls through to it (a branch to the function
+      label, a `return` and a trap do not execute that `end`) -/
+  endBefore : List Nat := []
 deriving Repr
 
 inductive FOut where
@@ -309,7 +312,7 @@ deriving Repr
 
 /-- what the caller of the function sees -/
 def finish (m : Bool) (f : Func) (base : List Nat) : Out → FOut
-  | .normal s => .returned (s.stack.take f.nres) (if m then s.fire f.exit else s)
+  | .normal s => .returned (s.stack.take f.nres) (if m then (s.fire f.endBefore).fire f.exit else s)
   | .br 0 pend s =>
     .returned (s.stack.take f.nres) (if m then ((s.exitTo base f.nres).fire (saPs pend)).fire f.exit else s.exitTo base f.nres)
   | .br (_ + 1) _ _ => .stuck "branch out of the function"
@@ -388,7 +391,7 @@ end
 def lowerF (f : Func) : Func :=
   { entry := [], exit := [], nres := f.nres,
     body :=
-      if f.exit.isEmpty then probes f.entry ++ lowerL [] f.body
-      else probes f.entry ++ [Instr.block [] {} f.nres "block:functype" (lowerL f.exit f.body)] ++ probes f.exit }
+      if f.exit.isEmpty then probes f.entry ++ lowerL [] f.body ++ probes f.endBefore
+      else probes f.entry ++ [Instr.block [] {} f.nres "block:functype" (lowerL f.exit f.body ++ probes f.endBefore)] ++ probes f.exit }
 
 end Orca.Sem
